@@ -92,6 +92,17 @@ DESC.update({
  "C34e": ("cycle_token_text searches `!` from the start of the token instead of after the leading whitespace", "sheet-qualified reference preceded by whitespace"),
 })
 
+DESC.update({
+ "C14f": ("delete_rows: the links closure drops `r <= row + row_count` (inclusive end)", "hyperlink on the first row below the deleted block"),
+ "C16f": ("to_string_moved resolves column2 of a range with absolute_column1", "cut/paste with a range whose corners differ in column anchoring ($A1:B2)"),
+ "C18f": ("set_user_input writes a typed boolean with the cell's previous style instead of the quote-prefix-free one", "boolean typed over a quote-prefixed text cell"),
+ "C23f": ("next_token starts an identifier only on an ASCII letter", "Spanish UNIQUE = UNICO with an accented first letter (the one localized name starting with a non-ASCII letter)"),
+ "C24f": ("cellStyleXfs writer emits applyFill according to apply_font", "named style whose includes have font != fill, xlsx round trip"),
+ "C26f": ("LET/LAMBDA same_name folds case with eq_ignore_ascii_case", "LET-bound lambda whose name has a non-ASCII capital, to_bytes/from_bytes, evaluate"),
+ "C29f": ("delete_column_style keeps the descriptor only for custom_width (not for hidden)", "hidden default-width column whose style is deleted (undo of set style)"),
+ "C31f": ("Model::evaluate clears cells/support once before the restart loop (as C05b)", "two dynamic arrays, the earlier reads non-anchor cells of the later spill"),
+})
+
 def sh(cmd, cwd=None):
     return subprocess.run(cmd, shell=True, cwd=cwd, capture_output=True, text=True)
 def run_check(pid):
